@@ -30,6 +30,9 @@ pub enum Op {
     TxnSet(u8, String, bool),
     /// RESET of a tracked parameter
     Reset(u8),
+    /// RELOAD through the admin console; true = the pool's definition changed (pool_size +1 / back), so the pool and its server
+    /// connections are rebuilt under the connected clients
+    Reload(bool),
 }
 
 #[derive(Clone, Debug, Serialize, Deserialize)]
@@ -86,6 +89,7 @@ fn client_strategy() -> BoxedStrategy<Client> {
         2 => (0u8..3, "[a-z0-9]{1,6}").prop_map(|(i, v)| Op::SetUntracked(i, v)),
         2 => (tracked_pair(), any::<bool>()).prop_map(|((i, v), c)| Op::TxnSet(i, v, c)),
         1 => (0u8..5).prop_map(Op::Reset),
+        1 => prop::bool::weighted(0.8).prop_map(Op::Reload),
     ];
     (prop::collection::vec((tracked_pair(), any::<bool>()).prop_map(|((i, v), lower)| (i, lower, v)), 0..4), prop::collection::vec(op, 1..7))
         .prop_map(|(mut startup, ops)| {
@@ -109,7 +113,7 @@ impl Part for WirePart {
         true
     }
     fn rule(&self) -> String {
-        "2..3 clients sharing a pool of 1..2 connections (transaction mode, or session mode with a connection each); start-up packets with 0..3 of the five tracked parameters (both spellings of TimeZone/DateStyle); per client 1..6 operations over {tagged statement, SET tracked outside a transaction, SET untracked, BEGIN; SET tracked; statement; COMMIT|ROLLBACK, RESET tracked} in a generated interleaving; application_name values include quotes, doubled quotes, backslashes, ';', '--', comment and dollar-quote openers, non-ASCII. Oracle (evaluated on the mock backend's GUC table at every tagged statement): the five tracked parameters equal what the issuing client was last told in ParameterStatus (checked against its own start-up values too), and in transaction mode no untracked value set by anybody is visible. Non-trivial = a value containing a quote/backslash/non-ASCII, or two clients holding different values of one parameter on one connection".into()
+        "2..3 clients sharing a pool of 1..2 connections (transaction mode, or session mode with a connection each); start-up packets with 0..3 of the five tracked parameters (both spellings of TimeZone/DateStyle); per client 1..6 operations over {tagged statement, SET tracked outside a transaction, SET untracked, BEGIN; SET tracked; statement; COMMIT|ROLLBACK, RESET tracked, RELOAD with an unchanged file or one that changes pool_size (the pool and its server connections are rebuilt under the connected clients)} in a generated interleaving; application_name values include quotes, doubled quotes, backslashes, ';', '--', comment and dollar-quote openers, non-ASCII. Oracle (evaluated on the mock backend's GUC table at every tagged statement): the five tracked parameters equal what the issuing client was last told in ParameterStatus (checked against its own start-up values too), and in transaction mode no untracked value set by anybody is visible. Non-trivial = a value containing a quote/backslash/non-ASCII, or two clients holding different values of one parameter on one connection".into()
     }
     fn cases(&self, tier: Tier) -> u64 {
         tier.pick(1_600, 24_000)
@@ -125,9 +129,14 @@ impl Part for WirePart {
 }
 
 fn config(mocks: &[crate::mock::MockServer], c: &Case) -> PgcatConfig {
+    config_gen(mocks, c, 0)
+}
+
+/// `gen` = number of definition-changing reloads so far (the pool size alternates)
+fn config_gen(mocks: &[crate::mock::MockServer], c: &Case, gen: u32) -> PgcatConfig {
     let mut cfg = PgcatConfig::new();
     let servers = vec![ServerDef { host: mocks[0].ip.clone(), port: mocks[0].port, role: "primary".into() }];
-    let mut pool = pgc::simple_pool("db", "u", "pw", c.pool_size as u32, servers);
+    let mut pool = pgc::simple_pool("db", "u", "pw", c.pool_size as u32 + (gen % 2), servers);
     if c.session_mode {
         pool.set("pool_mode", "\"session\"");
     }
@@ -181,6 +190,7 @@ async fn run_case(c: &Case, ctx: &mut WorkerCtx) -> Outcome {
         return o;
     }
     let mut next_op = vec![0usize; clis.len()];
+    let mut reload_gen = 0u32;
     let mut values_on_conn: std::collections::HashMap<(u64, String), std::collections::HashSet<String>> = Default::default();
     'outer: for choice in &c.order {
         // pick the next client that still has operations (monotone mapping of the choice)
@@ -192,7 +202,27 @@ async fn run_case(c: &Case, ctx: &mut WorkerCtx) -> Outcome {
         let op = c.clients[i].ops[next_op[i]].clone();
         next_op[i] += 1;
         o.sub_evaluations += 1;
+        if let Op::Reload(changed) = &op {
+            if *changed {
+                reload_gen += 1;
+                o.label("reload_rebuilt_pool");
+            }
+            env.pg.write_config(&config_gen(&env.mocks, c, reload_gen).to_toml(env.pg.port));
+            let ok = match env.admin().await {
+                Ok(mut a) => {
+                    let (m, e) = a.simple("RELOAD", wire::T_REPLY).await;
+                    matches!(e, ReadEnd::Ready(_)) && !m.iter().any(|x| x.code == b'E')
+                }
+                Err(_) => false,
+            };
+            if !ok {
+                o.inconclusive = Some("RELOAD of a valid file failed".into());
+                break 'outer;
+            }
+            continue;
+        }
         let reqs: Vec<Req> = match &op {
+            Op::Reload(_) => unreachable!(),
             Op::Stmt => vec![Req::Simple(vec![St::new(Sk::Select)])],
             Op::SetTracked(idx, v) => {
                 if special(v) {
